@@ -62,6 +62,9 @@ class RuleDependency:
                     self.head2rules[head].append(stm)
             for p in chain(body_predicates(stm, SIGNS), minimize_predicates(stm, SIGNS), self._head_condition_predicates(stm)):
                 self.pred2stm[p.pred].append(stm)
+            if stm.ast_type not in (ASTType.Rule, ASTType.Minimize, ASTType.Program):
+                for func in collect_ast(stm, "Function"):  # #edge, #heuristic, #external, #show term, ...
+                    self.pred2stm[Predicate(func.name, len(func.arguments))].append(stm)
 
     @staticmethod
     def _head_condition_predicates(stm: AST) -> Iterator[SignedPredicate]:
